@@ -91,6 +91,8 @@ def arguments_parts(eng, st, a):
 def bi_formatter_write_fmt(eng, st, args, d, r, callee=''):
     """Formatter::write_fmt(f, Arguments): the sink records (template, kind, value) per argument"""
     tpl, items = arguments_parts(eng, st, args[1])
+    if len(items) == 1 and isinstance(items[0][1], Opq) and getattr(eng, 'render_choice', None) is not None:
+        return bi_write_fmt(eng, st, args, d, r, callee=callee)        # a payload printed straight to the Formatter: same rendering model
     for (kind, p) in items:
         if isinstance(p, Agg) and p.ty == 'NonZero': p = p.f[0]
         st.out = getattr(st, 'out', ()) + (('arg', tpl, kind, p),)
